@@ -56,6 +56,8 @@ def run(ctx, model):
     run_fragment_wrap(ctx, model)
     run_status_histories(ctx, model)
     run_single_request_groups(ctx, model)
+    run_repeated_calls(ctx, model)
+    run_slc_operations(ctx, model)
     outs = model.batch(lines)
     for (stream, k, want), out in zip(pend, outs):
         if out != want:
@@ -261,6 +263,110 @@ def run_single_request_groups(ctx, model):
         if "repeated on consecutive" in str(log):
             ctx.violation("target-duplicate-detection-fired", case, str(log)[:200])
         sess.close()
+
+
+def run_repeated_calls(ctx, model):
+    """the same call again and again on one driver — a polling loop: `read(t)` three times, `write((t, v))` three times,
+    a two-tag read three times, generic messages with identical arguments: nothing of an earlier call's packets may go
+    out again under its old count"""
+    import logixgen as lg
+    from props import logix as lx
+    from props import c02
+    rng = ctx.rng
+    for i in range(ctx.budget(8, 60)):
+        p = lg.gen_project(rng)
+        if rng.random() < 0.2:
+            p["micro800"] = True
+        sess = lx.Session(model, p, conn_large=rng.random() < 0.6)
+        if sess.open_error is not None:
+            sess.close()
+            continue
+        sess.log()
+        n0 = max(0, len(sess.sock.frames) - 1)
+        calls = []
+        try:
+            for _ in range(rng.choice([2, 3])):
+                r = rng.random()
+                if r < 0.45:
+                    tags = [t[0] for t in (lx.gen_read(rng, p) for _ in range(rng.choice([1, 1, 2]))) if t]
+                    if tags:
+                        calls.append(["read x3"] + tags)
+                        for _ in range(3):
+                            core.with_budget(60, sess.d.read, *tags)
+                elif r < 0.8:
+                    ws = [w for w in (c02.gen_write(rng, p) for _ in range(rng.choice([1, 1, 2]))) if w]
+                    if ws:
+                        calls.append(["write x3"] + [w[0] for w in ws])
+                        for _ in range(3):
+                            core.with_budget(60, sess.d.write, *[(w[0], w[1]) for w in ws])
+                else:
+                    calls.append(["generic x3"])
+                    for _ in range(3):
+                        sess.d.generic_message(service=1, class_code=0x70, instance=1, connected=True, name="g")
+        except BaseException as e:  # noqa
+            if isinstance(e, (KeyboardInterrupt, SystemExit)):
+                raise
+        frames, seqs = _wire_counts(sess.sock.frames[n0:])
+        ctx.case("repeated-calls", ("rep", i, repr(calls)))
+        case = {"index": i, "calls": calls}
+        for j in range(1, len(seqs)):
+            if seqs[j] == seqs[j - 1]:
+                ctx.violation("sequence-count-repeated", dict(case, frame_index=j),
+                              "count %d on two consecutive connected messages (services %#x, %#x)" % (seqs[j], frames[j - 1][46], frames[j][46]))
+                break
+        log = sess.log()
+        if "repeated on consecutive" in str(log):
+            ctx.violation("target-duplicate-detection-fired", case, str(log)[:200])
+        sess.close()
+
+
+def run_slc_operations(ctx, model):
+    """every connected operation of the SLC driver — reads, writes, processor type, data-log queue, file directory —
+    on one connection: consecutive messages carry different counts"""
+    from props import slcdrv
+    rng = ctx.rng
+    for i in range(ctx.budget(6, 40)):
+        files, cfg = slcdrv.gen_setup(rng)
+        pair = slcdrv.Pair(model, cfg)
+        if pair.open_error is not None:
+            pair.close()
+            continue
+        n0 = max(0, len(pair.sock.frames) - 1)
+        done = []
+        ops = ["read", "write", "ptype", "datalog", "filedir", "read", "datalog"]
+        rng.shuffle(ops)
+        for op in ops[:rng.choice([3, 4, 6])]:
+            done.append(op)
+            try:
+                if op == "read":
+                    a = [slcdrv.gen_read_address(rng, files)[0] for _ in range(rng.choice([1, 2, 3]))]
+                    core.with_budget(30, pair.d.read, *a)
+                elif op == "write":
+                    it = slcdrv.gen_write_item(rng, files)[0]
+                    core.with_budget(30, pair.d.write, (it[0], it[1]))
+                elif op == "ptype":
+                    core.with_budget(30, pair.d.get_processor_type)
+                elif op == "datalog":
+                    core.with_budget(30, pair.d.get_datalog_queue, rng.choice([1, 2, 3, 5]), rng.choice([0, 1, 7]))
+                else:
+                    core.with_budget(30, pair.d.get_file_directory)
+            except BaseException as e:  # noqa
+                if isinstance(e, (KeyboardInterrupt, SystemExit)):
+                    raise
+        frames, seqs = _wire_counts(pair.sock.frames[n0:])
+        ctx.case("slc-operations", ("slcops", i, tuple(done)))
+        for op in done:
+            ctx.count("slc-operations/" + op)
+        case = {"index": i, "operations": done}
+        for j in range(1, len(seqs)):
+            if seqs[j] == seqs[j - 1]:
+                ctx.violation("sequence-count-repeated", dict(case, frame_index=j),
+                              "count %d on two consecutive connected messages of the SLC driver" % seqs[j])
+                break
+        log = model.ask("target.log")
+        if "repeated on consecutive" in log:
+            ctx.violation("target-duplicate-detection-fired", case, log[log.index("sequence count"):][:120])
+        pair.close()
 
 
 def run_logix_histories(ctx, model):
